@@ -137,6 +137,10 @@ def run_interp_check(pid, gen, fields, counts, tier, seed, rule, design_ref, ext
         # directed expectations stated by the property itself, checked on the implementation alone
         exp_checked = 0
         if expectations:
+            # every expectation that does not set up its own context is also run through vm.Run - the entry point without a
+            # context, under which nothing is ever cancelled (ctx.Done() is nil): the property holds there just the same
+            expectations = list(expectations) + [dict(e, src="#plain\n" + e["src"], why=e["why"] + " [run with vm.Run, no context]")
+                                                 for e in expectations if not e["src"].startswith("#") and e["field"] != "polls"]
             sf = os.path.join(scratch, "expect.json")
             json.dump([e["src"] for e in expectations], open(sf, "w"))
             common.sh([harness, "interp", "-srcfile", sf, "-out", scratch], env=common.GOENV, timeout=600)
